@@ -76,7 +76,7 @@ def explore(chk):
             while not lay or "origin" not in lay:
                 lay = setbuild.rand_layout(rng, False)
             j = h // 4
-            level = ["lang", "set", "caption"][(j // len(setbuild.WRITERS)) % 3]
+            level = ["lang", "set", "caption"][j % 3]
             a = setbuild.rand_desc(rng, nlang=rng.choice([1, 2]), unbalanced=0.0, absolute=0.0, with_layout=0.0)
             bare = setbuild.rand_desc(rng, nlang=rng.choice([1, 2]), unbalanced=0.0, absolute=0.0, with_layout=0.0)
             if level == "lang":
@@ -85,8 +85,14 @@ def explore(chk):
                 a["layout"] = lay
             else:
                 a["langs"][0]["caps"][0]["layout"] = lay
+                if True:
+                    # the second set is positioned by the very same layout, but on the set level only: whatever the first
+                    # document registered for that layout (a region, an id) belongs to the first document
+                    bare["layout"] = json.loads(json.dumps(lay))
             sets = [a, bare]
-            shared = [(setbuild.WRITERS[j % len(setbuild.WRITERS)], rng.choice([None, None, {"fit_to_screen": False}, {"video_width": 640, "video_height": 360}]))]
+            # writer kinds in the order dfxp, single, webvtt, sami, legacy, srt, ...: every kind meets all three levels
+            kinds_ = ["dfxp", "single", "webvtt", "sami", "legacy", "srt", "microdvd", "scc"]
+            shared = [(kinds_[(j // 3) % len(kinds_)], rng.choice([None, None, {"fit_to_screen": False}, {"video_width": 640, "video_height": 360}]))]
             ops_fixed = [("shared", 0, shared[0][0], shared[0][1], si) for si in (0, 1, 0, 1)]
         elif h % 4 == 1:
             # two sets whose spans take their style from classes of the same names, defined differently in each set; one
@@ -143,6 +149,11 @@ def explore(chk):
             d["layout"] = {"padding": ["4%", "4%", "10%", "10%"]}
             # percentage layouts the fit-to-screen step has to complete or to clip: an origin without extent on a caption, an
             # extent that runs past the safe area on a node
+            caps_ = d["langs"][0]["caps"]
+            if len(caps_) < 2:
+                caps_.append(json.loads(json.dumps(caps_[0])))
+            # two consecutive captions with the very same start and end (a run the SRT / legacy / single writers merge)
+            caps_[1]["start"], caps_[1]["end"] = caps_[0]["start"], caps_[0]["end"]
             c0 = d["langs"][0]["caps"][0]
             c0["layout"] = {"origin": ["25%", "70%"]}
             for n in c0["nodes"]:
